@@ -16,7 +16,7 @@ Proof. unfold adjust_dir. destruct d, (t_dir t); reflexivity. Qed.
 Lemma on_found_kind d t : t_kind (on_found d t) = t_kind t.
 Proof. unfold on_found. rewrite adjust_dir_kind. destruct d; reflexivity. Qed.
 Lemma on_satisfied_kind d m t : t_kind (on_satisfied d m t) = t_kind t.
-Proof. unfold on_satisfied. cbn. apply adjust_dir_kind. Qed.
+Proof. unfold on_satisfied. cbn. rewrite adjust_dir_kind. reflexivity. Qed.
 
 Lemma sat_pred_kind k d t : sat_pred k d t = true -> t_kind t = k.
 Proof.
@@ -49,20 +49,22 @@ Proof.
   - exists t, c. split; [apply in_or_app; right; right; exact Hin|auto].
 Qed.
 
+(* every section has a mid; the unusable ones (unknown media type, no direction
+   attribute) are passed over, the usable audio/video ones are bound *)
 Lemma srd_loop_ok secs : forall l,
   NoDup (map r_mid secs) ->
-  (forall r, In r secs -> r_mid r <> "" /\ usable r = true) ->
+  (forall r, In r secs -> r_mid r <> "") ->
   (forall t a r k, In (t, a) l -> In r secs -> t_mid t = r_mid r ->
                    media_kind (r_kind r) = Some k -> t_kind t = k) ->
   exists l', srd_loop secs l = (l', None) /\
-    (forall r k, In r secs -> media_kind (r_kind r) = Some k -> bound l' (r_mid r) k) /\
+    (forall r k, In r secs -> usable r = true -> media_kind (r_kind r) = Some k -> bound l' (r_mid r) k) /\
     (forall m k, m <> "" -> bound l m k -> bound l' m k).
 Proof.
   induction secs as [|r rest IH]; intros l Hnd Hus Hcompat.
   - exists l. split; [reflexivity|]. split; [intros ? ? []|auto].
   - cbn [map] in Hnd. apply NoDup_cons_iff in Hnd. destruct Hnd as [Hr Hnd].
-    destruct (Hus r (or_introl eq_refl)) as [Hm Hu].
-    assert (Hus' : forall r0, In r0 rest -> r_mid r0 <> "" /\ usable r0 = true).
+    pose proof (Hus r (or_introl eq_refl)) as Hm.
+    assert (Hus' : forall r0, In r0 rest -> r_mid r0 <> "").
     { intros r0 Hin. apply Hus. right. exact Hin. }
     cbn [srd_loop]. rewrite (eqb_empty_false _ Hm).
     (* continuing with a list l0 that satisfies the premises for rest *)
@@ -70,90 +72,81 @@ Proof.
       (forall t a r0 k, In (t, a) l0 -> In r0 rest -> t_mid t = r_mid r0 ->
                         media_kind (r_kind r0) = Some k -> t_kind t = k) ->
       (forall m k, m <> "" -> bound l m k -> bound l0 m k) ->
-      (forall k, media_kind (r_kind r) = Some k -> bound l0 (r_mid r) k) ->
+      (forall k, usable r = true -> media_kind (r_kind r) = Some k -> bound l0 (r_mid r) k) ->
       exists l', srd_loop rest l0 = (l', None) /\
-        (forall r0 k, In r0 (r :: rest) -> media_kind (r_kind r0) = Some k -> bound l' (r_mid r0) k) /\
+        (forall r0 k, In r0 (r :: rest) -> usable r0 = true -> media_kind (r_kind r0) = Some k -> bound l' (r_mid r0) k) /\
         (forall m k, m <> "" -> bound l m k -> bound l' m k)).
     { intros l0 Hc0 Hmono Hthis. destruct (IH l0 Hnd Hus' Hc0) as (l' & E & B1 & B2).
       exists l'. split; [exact E|]. split.
-      - intros r0 k [<-|Hin] Hk; [apply B2; auto|apply B1; auto].
+      - intros r0 k [<-|Hin] Hu Hk; [apply B2; auto|apply B1; auto].
       - intros m k Hne Hb. apply B2; auto. }
     assert (Hcompat' : forall t a r0 k, In (t, a) l -> In r0 rest -> t_mid t = r_mid r0 ->
                                         media_kind (r_kind r0) = Some k -> t_kind t = k).
     { intros t a r0 k Hin Hr0. apply (Hcompat t a r0 k Hin). right. exact Hr0. }
-    unfold usable in Hu.
+    (* the section is passed over *)
+    assert (Hskip : usable r = false ->
+      exists l', srd_loop rest l = (l', None) /\
+        (forall r0 k, In r0 (r :: rest) -> usable r0 = true -> media_kind (r_kind r0) = Some k -> bound l' (r_mid r0) k) /\
+        (forall m k, m <> "" -> bound l m k -> bound l' m k)).
+    { intro Hu. apply Hcont; auto. intros k Hu'. rewrite Hu in Hu'. discriminate. }
+    (* an audio / video section with a direction *)
+    assert (Hmedia : forall mk d, media_kind (r_kind r) = Some mk ->
+      exists l',
+        match find_upd (by_mid (r_mid r)) (on_found d) l with
+        | Some (_, l0) => srd_loop rest l0
+        | None => match satisfy mk (preferred d) (on_satisfied d (r_mid r)) l with
+                  | Some (_, l0) => srd_loop rest l0
+                  | None => srd_loop rest (l ++ [(new_remote_tr mk d (r_mid r), false)])
+                  end
+        end = (l', None) /\
+        (forall r0 k, In r0 (r :: rest) -> usable r0 = true -> media_kind (r_kind r0) = Some k -> bound l' (r_mid r0) k) /\
+        (forall m k, m <> "" -> bound l m k -> bound l' m k)).
+    { intros mk d Emk.
+      destruct (find_upd (by_mid (r_mid r)) (on_found d) l) as [[x l0]|] eqn:F.
+      * apply find_upd_some in F. destruct F as (l1 & l2 & -> & -> & Hp & _).
+        unfold by_mid in Hp. apply String.eqb_eq in Hp.
+        apply Hcont.
+        -- intros t a r0 k Hin. apply in_app_or in Hin. destruct Hin as [Hin|[[= <- <-]|Hin]].
+           ++ apply (Hcompat' t a). apply in_or_app. auto.
+           ++ rewrite on_found_mid, on_found_kind. apply (Hcompat' x true). apply in_or_app. right. left. reflexivity.
+           ++ apply (Hcompat' t a). apply in_or_app. right. right. exact Hin.
+        -- intros m k _ Hb. eapply bound_replace; [| |exact Hb]; [apply on_found_mid|apply on_found_kind].
+        -- intros k _ Ek. rewrite Emk in Ek. injection Ek as <-.
+           exists (on_found d x), false. split; [apply in_or_app; right; left; reflexivity|].
+           rewrite on_found_mid, on_found_kind. split; [exact Hp|].
+           apply (Hcompat x true r mk); [apply in_or_app; right; left; reflexivity|left; reflexivity|exact Hp|exact Emk].
+      * destruct (satisfy mk (preferred d) (on_satisfied d (r_mid r)) l) as [[x l0]|] eqn:S.
+        -- apply satisfy_some in S. destruct S as (pd & S).
+           apply find_upd_some in S. destruct S as (l1 & l2 & -> & -> & Hp & _).
+           pose proof (sat_pred_unset _ _ _ Hp) as Hunset. pose proof (sat_pred_kind _ _ _ Hp) as Hkind.
+           apply Hcont.
+           ++ intros t a r0 k Hin Hr0. apply in_app_or in Hin. destruct Hin as [Hin|[[= <- <-]|Hin]].
+              ** apply (Hcompat' t a); auto. apply in_or_app. auto.
+              ** cbn [on_satisfied with_mid t_mid]. intros E. exfalso. apply Hr. rewrite E. apply in_map. exact Hr0.
+              ** apply (Hcompat' t a); auto. apply in_or_app. right. right. exact Hin.
+           ++ intros m k Hne Hb. eapply bound_assign; [exact Hunset|exact Hne|exact Hb].
+           ++ intros k _ Ek. rewrite Emk in Ek. injection Ek as <-.
+              exists (on_satisfied d (r_mid r) x), false.
+              split; [apply in_or_app; right; left; reflexivity|]. split; [reflexivity|].
+              rewrite on_satisfied_kind. exact Hkind.
+        -- apply Hcont.
+           ++ intros t a r0 k Hin Hr0. apply in_app_or in Hin. destruct Hin as [Hin|[[= <- <-]|[]]].
+              ** apply (Hcompat' t a); auto.
+              ** cbn [new_remote_tr t_mid]. intros E. exfalso. apply Hr. rewrite E. apply in_map. exact Hr0.
+           ++ intros m k _ (t & a & Hin & Hb). exists t, a. split; [apply in_or_app; auto|exact Hb].
+           ++ intros k _ Ek. rewrite Emk in Ek. injection Ek as <-.
+              exists (new_remote_tr mk d (r_mid r)), false.
+              split; [apply in_or_app; right; left; reflexivity|split; reflexivity]. }
     destruct (r_kind r) eqn:Ek; cbn [media_kind].
-    + (* audio *)
-      destruct (r_dir r) as [d|]; [|discriminate].
-      destruct (find_upd (by_mid (r_mid r)) (on_found d) l) as [[x l0]|] eqn:F.
-      * apply find_upd_some in F. destruct F as (l1 & l2 & -> & -> & Hp & _).
-        unfold by_mid in Hp. apply String.eqb_eq in Hp.
-        apply Hcont.
-        -- intros t a r0 k Hin. apply in_app_or in Hin. destruct Hin as [Hin|[[= <- <-]|Hin]].
-           ++ apply (Hcompat' t a). apply in_or_app. auto.
-           ++ rewrite on_found_mid, on_found_kind. apply (Hcompat' x true). apply in_or_app. right. left. reflexivity.
-           ++ apply (Hcompat' t a). apply in_or_app. right. right. exact Hin.
-        -- intros m k _ Hb. eapply bound_replace; [| |exact Hb]; [apply on_found_mid|apply on_found_kind].
-        -- intros k [= <-]. exists (on_found d x), false. split; [apply in_or_app; right; left; reflexivity|].
-           rewrite on_found_mid, on_found_kind. split; [exact Hp|].
-           apply (Hcompat x true r MAudio); [apply in_or_app; right; left; reflexivity|left; reflexivity|exact Hp|rewrite Ek; reflexivity].
-      * destruct (satisfy MAudio (preferred d) (on_satisfied d (r_mid r)) l) as [[x l0]|] eqn:S.
-        -- apply satisfy_some in S. destruct S as (pd & S).
-           apply find_upd_some in S. destruct S as (l1 & l2 & -> & -> & Hp & _).
-           pose proof (sat_pred_unset _ _ _ Hp) as Hunset. pose proof (sat_pred_kind _ _ _ Hp) as Hkind.
-           apply Hcont.
-           ++ intros t a r0 k Hin Hr0. apply in_app_or in Hin. destruct Hin as [Hin|[[= <- <-]|Hin]].
-              ** apply (Hcompat' t a); auto. apply in_or_app. auto.
-              ** cbn [on_satisfied with_mid t_mid]. intros E. exfalso. apply Hr. rewrite E. apply in_map. exact Hr0.
-              ** apply (Hcompat' t a); auto. apply in_or_app. right. right. exact Hin.
-           ++ intros m k Hne Hb. eapply bound_assign; [exact Hunset|exact Hne|exact Hb].
-           ++ intros k [= <-]. exists (on_satisfied d (r_mid r) x), false.
-              split; [apply in_or_app; right; left; reflexivity|]. split; [reflexivity|].
-              rewrite on_satisfied_kind. exact Hkind.
-        -- apply Hcont.
-           ++ intros t a r0 k Hin Hr0. apply in_app_or in Hin. destruct Hin as [Hin|[[= <- <-]|[]]].
-              ** apply (Hcompat' t a); auto.
-              ** cbn [new_remote_tr t_mid]. intros E. exfalso. apply Hr. rewrite E. apply in_map. exact Hr0.
-           ++ intros m k _ (t & a & Hin & Hb). exists t, a. split; [apply in_or_app; auto|exact Hb].
-           ++ intros k [= <-]. exists (new_remote_tr MAudio d (r_mid r)), false.
-              split; [apply in_or_app; right; left; reflexivity|split; reflexivity].
-    + (* video *)
-      destruct (r_dir r) as [d|]; [|discriminate].
-      destruct (find_upd (by_mid (r_mid r)) (on_found d) l) as [[x l0]|] eqn:F.
-      * apply find_upd_some in F. destruct F as (l1 & l2 & -> & -> & Hp & _).
-        unfold by_mid in Hp. apply String.eqb_eq in Hp.
-        apply Hcont.
-        -- intros t a r0 k Hin. apply in_app_or in Hin. destruct Hin as [Hin|[[= <- <-]|Hin]].
-           ++ apply (Hcompat' t a). apply in_or_app. auto.
-           ++ rewrite on_found_mid, on_found_kind. apply (Hcompat' x true). apply in_or_app. right. left. reflexivity.
-           ++ apply (Hcompat' t a). apply in_or_app. right. right. exact Hin.
-        -- intros m k _ Hb. eapply bound_replace; [| |exact Hb]; [apply on_found_mid|apply on_found_kind].
-        -- intros k [= <-]. exists (on_found d x), false. split; [apply in_or_app; right; left; reflexivity|].
-           rewrite on_found_mid, on_found_kind. split; [exact Hp|].
-           apply (Hcompat x true r MVideo); [apply in_or_app; right; left; reflexivity|left; reflexivity|exact Hp|rewrite Ek; reflexivity].
-      * destruct (satisfy MVideo (preferred d) (on_satisfied d (r_mid r)) l) as [[x l0]|] eqn:S.
-        -- apply satisfy_some in S. destruct S as (pd & S).
-           apply find_upd_some in S. destruct S as (l1 & l2 & -> & -> & Hp & _).
-           pose proof (sat_pred_unset _ _ _ Hp) as Hunset. pose proof (sat_pred_kind _ _ _ Hp) as Hkind.
-           apply Hcont.
-           ++ intros t a r0 k Hin Hr0. apply in_app_or in Hin. destruct Hin as [Hin|[[= <- <-]|Hin]].
-              ** apply (Hcompat' t a); auto. apply in_or_app. auto.
-              ** cbn [on_satisfied with_mid t_mid]. intros E. exfalso. apply Hr. rewrite E. apply in_map. exact Hr0.
-              ** apply (Hcompat' t a); auto. apply in_or_app. right. right. exact Hin.
-           ++ intros m k Hne Hb. eapply bound_assign; [exact Hunset|exact Hne|exact Hb].
-           ++ intros k [= <-]. exists (on_satisfied d (r_mid r) x), false.
-              split; [apply in_or_app; right; left; reflexivity|]. split; [reflexivity|].
-              rewrite on_satisfied_kind. exact Hkind.
-        -- apply Hcont.
-           ++ intros t a r0 k Hin Hr0. apply in_app_or in Hin. destruct Hin as [Hin|[[= <- <-]|[]]].
-              ** apply (Hcompat' t a); auto.
-              ** cbn [new_remote_tr t_mid]. intros E. exfalso. apply Hr. rewrite E. apply in_map. exact Hr0.
-           ++ intros m k _ (t & a & Hin & Hb). exists t, a. split; [apply in_or_app; auto|exact Hb].
-           ++ intros k [= <-]. exists (new_remote_tr MVideo d (r_mid r)), false.
-              split; [apply in_or_app; right; left; reflexivity|split; reflexivity].
+    + destruct (r_dir r) as [d|] eqn:Ed.
+      * apply (Hmedia MAudio d). reflexivity.
+      * apply Hskip. unfold usable. rewrite Ek, Ed. reflexivity.
+    + destruct (r_dir r) as [d|] eqn:Ed.
+      * apply (Hmedia MVideo d). reflexivity.
+      * apply Hskip. unfold usable. rewrite Ek, Ed. reflexivity.
     + (* application *)
-      apply Hcont; auto. intros k [=].
-    + discriminate.
+      apply Hcont; auto. intros k _ Ek'. discriminate Ek'.
+    + apply Hskip. unfold usable. rewrite Ek. reflexivity.
 Qed.
 
 (* two entries with the same set mid are the same entry *)
@@ -174,30 +167,38 @@ Qed.
 Definition km (m : msec) : kind * string := (msec_kind m, msec_id m).
 Definition kmr (r : rsection) : kind * string := (r_kind r, r_mid r).
 
+(* generateMatchedSDP keeps exactly the usable sections, in order *)
 Lemma match_loop_mirror secs : forall l acc app,
   NoDup (map r_mid secs) ->
-  (forall r, In r secs -> r_mid r <> "" /\ usable r = true) ->
+  (forall r, In r secs -> r_mid r <> "") ->
   NoDup (set_mids (strip l)) ->
   (forall t, In (t, false) l -> ~ In (t_mid t) (map r_mid secs)) ->
-  (forall r k, In r secs -> media_kind (r_kind r) = Some k -> bound l (r_mid r) k) ->
+  (forall r k, In r secs -> usable r = true -> media_kind (r_kind r) = Some k -> bound l (r_mid r) k) ->
   exists l' acc' app', match_loop secs l acc app = (l', Ok (acc', app')) /\
-                       map km acc' = map km acc ++ map kmr secs.
+                       map km acc' = map km acc ++ map kmr (filter usable secs).
 Proof.
   induction secs as [|r rest IH]; intros l acc app Hnd Hus Hl Hun Hb.
   - exists l, acc, app. split; [reflexivity|]. cbn. rewrite app_nil_r. reflexivity.
   - cbn [map] in Hnd. apply NoDup_cons_iff in Hnd. destruct Hnd as [Hr Hnd].
-    destruct (Hus r (or_introl eq_refl)) as [Hm Hu].
-    assert (Hus' : forall r0, In r0 rest -> r_mid r0 <> "" /\ usable r0 = true).
+    pose proof (Hus r (or_introl eq_refl)) as Hm.
+    assert (Hus' : forall r0, In r0 rest -> r_mid r0 <> "").
     { intros r0 Hin. apply Hus. right. exact Hin. }
     cbn [match_loop]. rewrite (eqb_empty_false _ Hm).
+    assert (Hskip : usable r = false ->
+      exists l' acc' app', match_loop rest l acc app = (l', Ok (acc', app')) /\
+                           map km acc' = map km acc ++ map kmr (filter usable (r :: rest))).
+    { intro Hu. cbn [filter]. rewrite Hu. apply IH; auto.
+      - intros t Hin Hc. apply (Hun t Hin). right. exact Hc.
+      - intros r0 k0 Hr0. apply (Hb r0 k0). right. exact Hr0. }
     assert (Hmedia : forall k d, r_kind r = kind_of k -> r_dir r = Some d ->
       exists l' acc' app',
         match find_upd (by_mid (r_mid r)) set_neg l with
         | Some (t, l0) => match_loop rest l0 (acc ++ [msec_of (r_mid r) t]) app
         | None => (l, Err "mid-not-found")
-        end = (l', Ok (acc', app')) /\ map km acc' = map km acc ++ map kmr (r :: rest)).
-    { intros k d Ek _.
-      destruct (Hb r k (or_introl eq_refl)) as (t & a & Hin & Et & Ekd); [rewrite Ek; destruct k; reflexivity|].
+        end = (l', Ok (acc', app')) /\ map km acc' = map km acc ++ map kmr (filter usable (r :: rest))).
+    { intros k d Ek Ed.
+      assert (Hu : usable r = true) by (unfold usable; rewrite Ek, Ed; destruct k; reflexivity).
+      destruct (Hb r k (or_introl eq_refl) Hu) as (t & a & Hin & Et & Ekd); [rewrite Ek; destruct k; reflexivity|].
       assert (a = true).
       { destruct a; auto. exfalso. apply (Hun t Hin). left. symmetry. exact Et. }
       subst a.
@@ -216,21 +217,25 @@ Proof.
           * apply (Hun t0); [apply in_or_app; auto|right; exact Hc].
           * rewrite set_neg_mid, Hp in Hc. exact (Hr Hc).
           * apply (Hun t0); [apply in_or_app; right; right; exact Hin0|right; exact Hc].
-        + intros r0 k0 Hr0 Hk0. eapply bound_replace; [| |apply (Hb r0 k0); [right; exact Hr0|exact Hk0]]; reflexivity.
-        + exists l', acc', app'. split; [exact E|]. rewrite M, map_app. cbn [map]. rewrite <- app_assoc. cbn [List.app].
+        + intros r0 k0 Hr0 Hu0 Hk0. eapply bound_replace; [| |apply (Hb r0 k0); [right; exact Hr0|exact Hu0|exact Hk0]]; reflexivity.
+        + exists l', acc', app'. split; [exact E|]. cbn [filter]. rewrite Hu.
+          rewrite M, map_app. cbn [map]. rewrite <- app_assoc. cbn [List.app].
           unfold km at 2, kmr at 2. cbn [msec_kind msec_id msec_of]. rewrite Ekx, Ek. reflexivity.
       - exfalso. pose proof (find_upd_none _ _ _ F _ _ Hin) as Hn. cbn in Hn. unfold by_mid in Hn.
         rewrite Et, String.eqb_refl in Hn. discriminate. }
-    unfold usable in Hu.
     destruct (r_kind r) eqn:Ek; cbn [media_kind].
-    + destruct (r_dir r) as [d|] eqn:Ed; [|discriminate]. exact (Hmedia MAudio d eq_refl eq_refl).
-    + destruct (r_dir r) as [d|] eqn:Ed; [|discriminate]. exact (Hmedia MVideo d eq_refl eq_refl).
-    + destruct (IH l (acc ++ [MData (r_mid r)]) true Hnd Hus' Hl) as (l' & acc' & app' & E & M).
+    + destruct (r_dir r) as [d|] eqn:Ed; [exact (Hmedia MAudio d eq_refl eq_refl)|].
+      apply Hskip. unfold usable. rewrite Ek, Ed. reflexivity.
+    + destruct (r_dir r) as [d|] eqn:Ed; [exact (Hmedia MVideo d eq_refl eq_refl)|].
+      apply Hskip. unfold usable. rewrite Ek, Ed. reflexivity.
+    + assert (Hu : usable r = true) by (unfold usable; rewrite Ek; reflexivity).
+      destruct (IH l (acc ++ [MData (r_mid r)]) true Hnd Hus' Hl) as (l' & acc' & app' & E & M).
       * intros t Hin Hc. apply (Hun t Hin). right. exact Hc.
-      * intros r0 k0 Hr0 Hk0. apply (Hb r0 k0); [right; exact Hr0|exact Hk0].
-      * exists l', acc', app'. split; [exact E|]. rewrite M, map_app. cbn [map]. rewrite <- app_assoc. cbn [List.app].
+      * intros r0 k0 Hr0 Hu0 Hk0. apply (Hb r0 k0); [right; exact Hr0|exact Hu0|exact Hk0].
+      * exists l', acc', app'. split; [exact E|]. cbn [filter]. rewrite Hu.
+        rewrite M, map_app. cbn [map]. rewrite <- app_assoc. cbn [List.app].
         unfold km at 2, kmr at 2. cbn [msec_kind msec_id]. rewrite Ek. reflexivity.
-    + discriminate.
+    + apply Hskip. unfold usable. rewrite Ek. reflexivity.
 Qed.
 
 Lemma populate_total c g secs : (forall k, c k = true) -> exists p, populate c g secs = Ok p.
@@ -242,17 +247,32 @@ Qed.
 Lemma kind_mid_lsec g m : kind_mid_l (lsec_of g m) = (msec_kind m, Some (msec_id m)).
 Proof. reflexivity. Qed.
 
-(* C07 for one offer applied in a stable state *)
-Lemma c07_partial_lemma s d :
+Lemma filter_all {A} (f : A -> bool) l : (forall x, In x l -> f x = true) -> filter f l = l.
+Proof.
+  induction l as [|x l IH]; intro H; [reflexivity|]. cbn [filter]. rewrite (H x (or_introl eq_refl)).
+  rewrite IH; [reflexivity|]. intros y Hy. apply H. right. exact Hy.
+Qed.
+
+Definition port0_r (d : rdesc) (r : rsection) : bool := negb (in_remote_group d (r_mid r)).
+
+(* C07 for one offer applied in a stable state, in full: the answer has one
+   section per USABLE offered section (application; audio/video with a direction
+   attribute), in order, with the offered media type and mid; each of them is
+   rejected in place (port 0) exactly when its mid is outside the remote BUNDLE
+   group, and the answer's BUNDLE group lists the others *)
+Lemma c07_shape_lemma s d :
   sig s = Stable ->
   NoDup (set_mids (trs s)) ->
-  rdesc_ok d -> offer_usable d -> kinds_compatible (trs s) d ->
+  rdesc_ok d -> (forall r, In r (r_secs d) -> r_mid r <> "") -> kinds_compatible (trs s) d ->
   codecs_ok (fst (set_remote s TOffer d)) ->
   snd (set_remote s TOffer d) = Ok tt /\
-  exists a, snd (create_answer (fst (set_remote s TOffer d))) = Ok a /\ c07_mirrors d a.
+  exists a, snd (create_answer (fst (set_remote s TOffer d))) = Ok a /\
+    map kind_mid_l (l_secs a) = map kind_mid_r (filter usable (r_secs d)) /\
+    map l_port0 (l_secs a) = map (port0_r d) (filter usable (r_secs d)) /\
+    l_bundle a = filter (in_remote_group d) (map r_mid (filter usable (r_secs d))).
 Proof.
   intros Hsig Hnd Hd Hus Hcompat Hcod.
-  unfold set_remote in *. rewrite Hsig in *.
+  unfold set_remote in *. rewrite Hsig in *. cbn [remote_next] in *.
   set (s1 := set_sig_remote s HaveRemoteOffer (cur_remote s) (Some d)) in *.
   set (s2 := set_engine s1 (engine_update (r_secs d) (neg_audio s1) (neg_video s1))) in *.
   assert (Htrs : trs s2 = trs s) by reflexivity.
@@ -272,31 +292,50 @@ Proof.
   destruct (match_loop_mirror (r_secs d) (fresh_local (strip l')) [] false Hd Hus) as (l2 & acc & app & M & K).
   - rewrite strip_fresh. exact Hnd3.
   - intros t Hin. unfold fresh_local in Hin. apply in_map_iff in Hin. destruct Hin as (? & [=] & _).
-  - intros r k Hr Hk. destruct (B1 r k Hr Hk) as (t & a & Hin & Et & Ek).
+  - intros r k Hr Hu Hk. destruct (B1 r k Hr Hu Hk) as (t & a & Hin & Et & Ek).
     exists t, true. split; [|auto]. unfold fresh_local. apply in_map_iff. exists t. split; [reflexivity|].
     apply in_strip. exists a. exact Hin.
-  - rewrite M.
-    destruct (populate_total (has_codecs (set_trs s3 (strip l2)))
-                (Some (trim_left_bundle match r_group d with Some v => v | None => "" end)) acc) as [p P].
+  - rewrite M. fold (remote_group_value d).
+    destruct (populate_total (has_codecs (set_trs s3 (strip l2))) (Some (remote_group_value d)) acc) as [p P].
     { intro k. apply Hcod. }
     rewrite P. exists (mk_ldesc p). split; [reflexivity|].
-    destruct (populate_all_codecs _ _ _ _ (fun k => Hcod k) P) as [E1 _].
-    unfold c07_mirrors, mk_ldesc. cbn [l_secs]. rewrite E1.
+    destruct (populate_all_codecs _ _ _ _ (fun k => Hcod k) P) as [E1 E2].
+    unfold mk_ldesc. cbn [l_secs l_bundle]. rewrite E1, E2.
     cbn [List.app] in K.
     assert (G : forall (xs : list msec) (ys : list rsection), map km xs = map kmr ys ->
-                map kind_mid_l (map (lsec_of (Some (trim_left_bundle match r_group d with Some v => v | None => "" end))) xs)
-                = map kind_mid_r ys).
-    { induction xs as [|x xs IHx]; intros [|y ys] Hxy; try discriminate; [reflexivity|].
-      cbn [map] in *. injection Hxy as Hk Hi Hrest. rewrite (IHx _ Hrest). f_equal.
-      rewrite kind_mid_lsec. unfold kind_mid_r. rewrite Hk, Hi. reflexivity. }
-    apply G. exact K.
+                map kind_mid_l (map (lsec_of (Some (remote_group_value d))) xs) = map kind_mid_r ys /\
+                map l_port0 (map (lsec_of (Some (remote_group_value d))) xs) = map (port0_r d) ys /\
+                map msec_id xs = map r_mid ys).
+    { induction xs as [|x xs IHx]; intros [|y ys] Hxy; try discriminate; [repeat split|].
+      cbn [map] in *. injection Hxy as Hk Hi Hrest. destruct (IHx _ Hrest) as (G1 & G2 & G3).
+      rewrite G1, G2, G3. repeat split; f_equal.
+      - rewrite kind_mid_lsec. unfold kind_mid_r. rewrite Hk, Hi. reflexivity.
+      - unfold lsec_of, port0_r, in_remote_group. cbn [accepted_section l_port0]. rewrite Hi. reflexivity.
+      - exact Hi. }
+    destruct (G _ _ K) as (G1 & G2 & G3). split; [exact G1|]. split; [exact G2|].
+    rewrite G3. reflexivity.
+Qed.
+
+(* all offered sections usable: the answer mirrors the offer one-for-one *)
+Lemma c07_partial_lemma s d :
+  sig s = Stable ->
+  NoDup (set_mids (trs s)) ->
+  rdesc_ok d -> offer_usable d -> kinds_compatible (trs s) d ->
+  codecs_ok (fst (set_remote s TOffer d)) ->
+  snd (set_remote s TOffer d) = Ok tt /\
+  exists a, snd (create_answer (fst (set_remote s TOffer d))) = Ok a /\ c07_mirrors d a.
+Proof.
+  intros Hsig Hnd Hd Hus Hcompat Hcod.
+  destruct (c07_shape_lemma s d Hsig Hnd Hd (fun r Hr => proj1 (Hus r Hr)) Hcompat Hcod) as (A & a & B & C & _).
+  split; [exact A|]. exists a. split; [exact B|].
+  unfold c07_mirrors. rewrite C, filter_all; [reflexivity|]. intros r Hr. exact (proj2 (Hus r Hr)).
 Qed.
 
 (* ---------- reachable states ---------- *)
 Lemma run_from_inv ops : forall s0,
   inv s0 ->
   (forall ty d, In (SetRemote ty d) ops -> rdesc_ok d) ->
-  (forall s out s', In (s, CreateOffer, out, s') (trace_from s0 ops) -> numbering_ok s) ->
+  (forall s out s', In (s, CreateOffer, out, s') (trace_from s0 ops) -> offer_nowrap s = true) ->
   inv (run_from s0 ops).
 Proof.
   induction ops as [|o rest IH]; intros s0 H0 Hrd Hnum; [exact H0|].
@@ -311,7 +350,7 @@ Proof.
 Qed.
 
 Lemma c07_history_lemma ops d :
-  remote_ok ops -> numbering_ok_all ops ->
+  remote_ok ops -> nowrap_all ops ->
   sig (run ops) = Stable ->
   rdesc_ok d -> offer_usable d -> kinds_compatible (trs (run ops)) d ->
   codecs_ok (fst (set_remote (run ops) TOffer d)) ->
@@ -320,6 +359,22 @@ Lemma c07_history_lemma ops d :
 Proof.
   intros Hr Hn Hsig Hd Hus Hk Hc.
   apply c07_partial_lemma; auto.
+  exact (proj1 (run_from_inv ops init inv_init Hr Hn)).
+Qed.
+
+Lemma c07_shape_history_lemma ops d :
+  remote_ok ops -> nowrap_all ops ->
+  sig (run ops) = Stable ->
+  rdesc_ok d -> (forall r, In r (r_secs d) -> r_mid r <> "") -> kinds_compatible (trs (run ops)) d ->
+  codecs_ok (fst (set_remote (run ops) TOffer d)) ->
+  snd (set_remote (run ops) TOffer d) = Ok tt /\
+  exists a, snd (create_answer (fst (set_remote (run ops) TOffer d))) = Ok a /\
+    map kind_mid_l (l_secs a) = map kind_mid_r (filter usable (r_secs d)) /\
+    map l_port0 (l_secs a) = map (port0_r d) (filter usable (r_secs d)) /\
+    l_bundle a = filter (in_remote_group d) (map r_mid (filter usable (r_secs d))).
+Proof.
+  intros Hr Hn Hsig Hd Hus Hk Hc.
+  apply c07_shape_lemma; auto.
   exact (proj1 (run_from_inv ops init inv_init Hr Hn)).
 Qed.
 
@@ -394,4 +449,29 @@ Proof.
   { intros t r k Ht Hr E. vm_compute in Ht. destruct Ht as [<-|[<-|[]]];
       destruct Hr as [<-|[<-|[<-|[<-|[]]]]]; discriminate E. }
   split; [intros []; vm_compute; reflexivity|]. vm_compute. reflexivity.
+Qed.
+
+(* premises of c07_shape_lemma on an offer with two unusable sections (m=text;
+   video without direction) and one usable section outside the BUNDLE group *)
+Definition off_mixed : rdesc :=
+  {| r_secs := [rsec KVideo "v" (Some Sendonly) true; rsec KOther "t" (Some Sendrecv) true;
+                rsec KApplication "d" None true; rsec KVideo "n" None true;
+                rsec KAudio "a" (Some Sendrecv) true; rsec KVideo "w" (Some Inactive) false];
+     r_group := Some "BUNDLE v t d n a" |}.
+Lemma ex_c07_shape :
+  sig st_two = Stable /\ NoDup (set_mids (trs st_two)) /\ rdesc_ok off_mixed /\
+  (forall r, In r (r_secs off_mixed) -> r_mid r <> "") /\
+  kinds_compatible (trs st_two) off_mixed /\ codecs_ok (fst (set_remote st_two TOffer off_mixed)) /\
+  map kind_mid_r (filter usable (r_secs off_mixed)) =
+    [(KVideo, Some "v"); (KApplication, Some "d"); (KAudio, Some "a"); (KVideo, Some "w")] /\
+  map (port0_r off_mixed) (filter usable (r_secs off_mixed)) = [false; false; false; true].
+Proof.
+  split; [reflexivity|]. split; [vm_compute; constructor|]. split.
+  { unfold rdesc_ok. repeat constructor; cbn; intuition discriminate. }
+  split.
+  { intros r [<-|[<-|[<-|[<-|[<-|[<-|[]]]]]]]; discriminate. }
+  split.
+  { intros t r k Ht Hr E. vm_compute in Ht. destruct Ht as [<-|[<-|[]]];
+      destruct Hr as [<-|[<-|[<-|[<-|[<-|[<-|[]]]]]]]; discriminate E. }
+  split; [intros []; vm_compute; reflexivity|]. split; vm_compute; reflexivity.
 Qed.
